@@ -17,7 +17,7 @@ package key
 //@   ensures [C12.v1.type] err == nil ==> writer.sdata[old(writer.slen)] == k.keyType
 //@   ensures [C12.v1.body] err == nil ==> forall j int :: old(writer.slen) + 1 <= j && j < writer.slen ==> writer.sdata[j] == old(k.key[j - old(writer.slen) - 1])
 //@   ensures [C12.v1.keep] forall i int :: 0 <= i && i < old(writer.slen) ==> writer.sdata[i] == old(writer.sdata[i])
-//@   modifies writer.sdata, writer.slen
+//@   modifies writer.sdata, writer.slen, writer.nmsg, writer.msg
 
 // Encode appends exactly the stored form of the key to the writer's stream.
 //@ func (Encoder).Encode
@@ -28,7 +28,7 @@ package key
 //@   ensures [C12.enc.form] err == nil ==> encodedAt(e.w.sdata, old(e.w.slen), key.KeyType, key.Key) && n == 5 + len(key.Key) && e.w.slen == old(e.w.slen) + n
 //@   ensures [C12.enc.keep] forall i int :: 0 <= i && i < old(e.w.slen) ==> e.w.sdata[i] == old(e.w.sdata[i])
 //@   ensures [C12.enc.ver]  err == nil ==> key.version == 1
-//@   modifies key.version, e.w.sdata, e.w.slen
+//@   modifies key.version, e.w.sdata, e.w.slen, e.w.nmsg, e.w.msg
 
 //@ func v1DecodeRaw
 //@   ensures [C12.dec.raw] len(raw) > 1 ==> result.keyType == raw[0] && sameSlice(result.key, raw[1:])
